@@ -7,9 +7,15 @@
     inconsistent list lengths must be rejected: the plume lookup reads its five tables with one index.
     [S] theorem, for every number interpretation: once the lengths agree (what the constructor has to
     enforce), every table read of the plume cross-section lookup is inside its table - the totalised
-    [nth _ _ default] of the model never returns its default - for every depth. *)
-From Coq Require Import List Arith Lia Bool.
-From WB Require Import Num Base Props World Kernels Features Plume.
+    [nth _ _ default] of the model never returns its default - for every depth.
+
+    Validate.v models the length checks of all constructors as one boolean verdict [doc_ok] over the length
+    signature of a document (tied to the implementation by lib/c12.py: model verdict vs constructor verdict on
+    every generated and damaged document).  The theorems below say what the verdict buys, on the evaluator of
+    Features.v itself: accepted lengths => the grains, fraction and spreading-velocity reads are inside their
+    tables, and the segment table of a slab or fault is rectangular. *)
+From Coq Require Import List Arith Lia Bool NArith.
+From WB Require Import Num Base Props World Kernels Features Plume Validate ValidateProofs SlabLayout.
 Import ListNotations.
 
 Section C12.
@@ -65,7 +71,73 @@ Section C12.
     rewrite <- H1 at 1. rewrite <- H2 at 1. rewrite <- H3 at 1. rewrite <- H4.
     repeat split; apply last_nth; intros E; rewrite E in *; cbn in *; lia.
   Qed.
+
+  (** the plume signature is the hypothesis of the two theorems above *)
+  Theorem C12_plume_signature : forall (pl : @plume_feature F), (0 < length (pl_coords pl))%nat ->
+    sig_ok (SigPlume (length (pl_coords pl)) (length (pl_depths pl)) (length (pl_axes pl)) (length (pl_ecc pl)) (length (pl_rot pl))) = true ->
+    plume_lengths_ok pl.
+  Proof.
+    intros pl Hn H. cbn [sig_ok] in H. repeat (apply andb_prop in H; destruct H as [H ?]).
+    repeat match goal with E : (_ =? _)%nat = true |- _ => apply Nat.eqb_eq in E end.
+    unfold plume_lengths_ok. lia.
+  Qed.
+
+  (** uniform and random grains (all feature types): the composition found at position i reads entry i of every table *)
+  Theorem C12_grains_uniform_reads : forall (comps : list N) (mats : list (list F)) (sizes : list F) c i,
+    sig_ok (SigGrainsUniform (length comps) (length mats) (length sizes)) = true ->
+    find_idx comps c 0 = Some i -> (i < length sizes)%nat /\ (i < length mats)%nat.
+  Proof. exact grains_uniform_reads_in_bounds. Qed.
+
+  Theorem C12_grains_random_reads : forall (comps : list N) (sizes : list F) (normalize : list bool) c i,
+    sig_ok (SigGrainsRandom (length comps) (length sizes) (length normalize)) = true ->
+    find_idx comps c 0 = Some i -> (i < length sizes)%nat /\ (i < length normalize)%nat.
+  Proof. exact grains_random_reads_in_bounds. Qed.
+
+  Theorem C12_grains_deflected_reads : forall (comps : list N) (sizes : list F) (normalize : list bool) (defl : list F) (basis : list (list F)) c i,
+    sig_ok (SigGrainsDeflected (length comps) (length sizes) (length normalize) (length defl) (length basis)) = true ->
+    find_idx comps c 0 = Some i ->
+    (i < length sizes)%nat /\ (i < length normalize)%nat /\ (i < length defl)%nat /\ (i < length basis)%nat.
+  Proof. exact grains_deflected_reads_in_bounds. Qed.
+
+  (** uniform composition: walking compositions and fractions together is the lookup by position *)
+  Theorem C12_fractions_lookup : forall (comps : list N) (fracs : list F) c,
+    sig_ok (SigFractions (length comps) (length fracs)) = true ->
+    find_comp comps fracs c = match find_idx comps c 0 with Some i => nth_error fracs i | None => None end /\
+    (forall i, find_idx comps c 0 = Some i -> (i < length fracs)%nat).
+  Proof. exact fractions_lookup. Qed.
 End C12.
+
+(** spreading velocities (half space, plate model, mass conserving): the constructor's loop reads inside the list
+    (the defect D30 was this read without the check), and builds one velocity per ridge point *)
+Theorem C12_spreading_reads : forall ridges nvel i,
+  sig_ok (SigSpreading ridges nvel) = true -> In i (group_reads ridges (nvel =? 1) 0) -> (i < nvel)%nat.
+Proof. exact spreading_reads_in_bounds. Qed.
+
+Theorem C12_spreading_shape : forall (A : Type) ridges single (vels : list A) d idx,
+  map (@length A) (group_velocities ridges single vels idx d) = ridges /\
+  concat (group_velocities ridges single vels idx d) = map (fun i => nth i vels d) (group_reads ridges single idx).
+Proof. intros. split; [apply group_velocities_shape | apply group_velocities_reads]. Qed.
+
+(** sections of slabs and faults: the segment table is rectangular *)
+Theorem C12_section_table_rectangular : forall (K M G : Type) (L : layout K M G),
+  (forall e, In e (ly_sections L) ->
+     sig_ok (SigSection (ly_n L) (se_coord e) (length (ly_default L)) (length (se_segments e))) = true) ->
+  length (table L) = ly_n L /\ Forall (fun row => length row = length (ly_default L)) (table L).
+Proof. exact (@table_rectangular). Qed.
+
+(** non-vacuity: a consistent and an inconsistent document *)
+Example C12_doc_ok_example :
+  doc_ok [SigPlume 3 3 3 3 3; SigGrainsUniform 2 2 2; SigSpreading [2; 3] 5; SigSpreading [2; 3] 1; SigSection 3 2 2 2] = true /\
+  doc_ok [SigPlume 3 3 3 2 3] = false /\ doc_ok [SigSpreading [2; 3] 4] = false /\ doc_ok [SigSection 3 3 2 2] = false.
+Proof. repeat split. Qed.
 
 Print Assumptions C12_plume_reads_in_bounds.
 Print Assumptions C12_plume_last_is_in_table.
+Print Assumptions C12_plume_signature.
+Print Assumptions C12_grains_uniform_reads.
+Print Assumptions C12_grains_random_reads.
+Print Assumptions C12_grains_deflected_reads.
+Print Assumptions C12_fractions_lookup.
+Print Assumptions C12_spreading_reads.
+Print Assumptions C12_spreading_shape.
+Print Assumptions C12_section_table_rectangular.
